@@ -63,7 +63,7 @@ def gen_value(rng: random.Random, tricky: float, depth: int = 0):
     if depth >= 3 or r < 0.45:
         return gen_string(rng, tricky)
     if r < 0.55:
-        return rng.choice([0, 1, -1, 7, 123456789, 1.5, -0.25, True, False, None])
+        return rng.choice([0, 1, -1, 7, 123456789, 1.5, -0.25, True, False, None, 1.0, 0.0, 2**63, -(2**63) - 1, 10**30, 1e22, 1e-7, 123456789.125])
     if r < 0.78:
         return [gen_value(rng, tricky, depth + 1) for _ in range(rng.choice([0, 1, 2, 3]))]
     d = {}
